@@ -106,17 +106,33 @@ type bRec struct {
 	pts    []int
 }
 
-type bDest struct{ A, B, C int }
+// the field "c" is a nested struct (a struct-valued field on both sides of an Extend / Merge conflict); the base's own c
+// has a second member "old" that no replacement has: a derived schema that still visits it kept part of the old field
+type bDest struct {
+	A, B int
+	C    struct{ X, Old int }
+}
 
 var bcur *bRec
 
-func bField(key string, fid int) z.ZogSchema {
+func bLeaf(key string, fid int) z.ZogSchema {
 	return z.Int().TestFunc(func(v any, ctx z.Ctx) bool {
 		if bcur != nil {
 			bcur.fields[key] = fid
 		}
 		return true
 	})
+}
+
+func bField(key string, fid int) z.ZogSchema {
+	if key != "c" {
+		return bLeaf(key, fid)
+	}
+	s := z.Schema{"x": bLeaf("c", fid)}
+	if fid == keyIdx["c"] {
+		s["old"] = bLeaf("cold", 1) // only the base schema's own c
+	}
+	return z.Struct(s)
 }
 
 func bTest(id int) z.Test {
@@ -148,9 +164,10 @@ func observe(s *z.StructSchema, idx int, mode string) (o bObs) {
 		}
 	}()
 	bcur = rec
-	d := bDest{A: 1, B: 1, C: 1}
+	d := bDest{A: 1, B: 1}
+	d.C.X, d.C.Old = 1, 1
 	if mode == "parse" {
-		s.Parse(map[string]any{"a": 1, "b": 1, "c": 1}, &d)
+		s.Parse(map[string]any{"a": 1, "b": 1, "c": map[string]any{"x": 1, "old": 1}}, &d)
 	} else {
 		s.Validate(&d)
 	}
